@@ -103,6 +103,18 @@ class PN53xChip(object):
     def syntax_error_frame(self):
         return frames.ERR
 
+    def truncate_payload(self, frame, keep):
+        """the same response, validly framed, with only `keep` payload bytes (keep < 0: drop the last -keep)"""
+        try:
+            p = frames.parse_pn53x(frame, False, True)
+        except FrameError:
+            return frame
+        if p.get("kind") != "data":
+            return frame
+        pl = bytes(p["payload"])
+        pl = pl[:keep] if keep >= 0 else pl[:max(0, len(pl) + keep)]
+        return frames.build_pn53x(bytes([p["tfi"], p["code"]]) + pl)
+
     def is_rf_cmd(self, code):
         return code in PN53X_RF_CMDS
 
@@ -441,6 +453,15 @@ class ACR122Chip(PN53xChip):
     def frame_rsp(self, code, payload):
         return frames.build_ccid_in(bytes([0xD5, (code + 1) & 0xFF]) + bytes(payload) + b"\x90\x00")
 
+    def truncate_payload(self, frame, keep):
+        try:
+            p = frames.parse_ccid_in(frame)
+        except FrameError:
+            return frame
+        pl = bytes(p["payload"])
+        pl = pl[:keep] if keep >= 0 else pl[:max(0, len(pl) + keep)]
+        return frames.build_ccid_in(bytes([0xD5, p["code"]]) + pl + b"\x90\x00")
+
     def wrap(self, code, rsp):
         if rsp is NO_RESPONSE:
             return []
@@ -500,6 +521,17 @@ class RCS380Chip(object):
 
     def syntax_error_frame(self):
         return frames.ERR
+
+    def truncate_payload(self, frame, keep):
+        try:
+            p = frames.parse_rcs380(frame, False)
+        except FrameError:
+            return frame
+        if p.get("kind") != "data":
+            return frame
+        pl = bytes(p["payload"])
+        pl = pl[:keep] if keep >= 0 else pl[:max(0, len(pl) + keep)]
+        return frames.build_rcs380(bytes([p["tfi"], p["code"]]) + pl)
 
     def is_rf_cmd(self, code):
         return code in RCS380_RF_CMDS
